@@ -192,3 +192,61 @@ package util
 //@      typeIs(c.PublicKey, *rsa.PublicKey) && rsaKey(c) != nil && rsaKey(c).N != nil
 //@ spec modulus(c *x509.Certificate) int = val(rsaKey(c).N)
 //@ spec exponent(c *x509.Certificate) int = rsaKey(c).E
+
+// ---------------------------------------------------------------------------
+// TLD validity (C18), written from the property: right-most label, lower-cased, in the
+// delegation table; not before the delegation date; not after the removal date if recorded.
+
+//@ spec periodWF(p GTLDPeriod) bool =
+//@      dateOK(GTLDPeriodDateFormat, p.DelegationDate) &&
+//@      (p.RemovalDate == "" || dateOK(GTLDPeriodDateFormat, p.RemovalDate))
+//@ spec validAt(p GTLDPeriod, t time.Time) bool =
+//@      inst(t) >= inst(parseDate(GTLDPeriodDateFormat, p.DelegationDate)) &&
+//@      (p.RemovalDate == "" || inst(t) <= inst(parseDate(GTLDPeriodDateFormat, p.RemovalDate)))
+//@ spec tldWF() bool = all(k, string, implies(indom(tldMap, k), periodWF(tldMap[k])))
+//@ spec lastLabel(s string) string = splitAt(s, ".", splitLen(s, ".") - 1)
+
+//@ func (GTLDPeriod).Valid [C18]
+//@   requires periodWF(p)
+//@   nopanic
+//@   assigns \fresh
+//@   ensures (result == nil) == validAt(p, when)
+
+//@ func HasValidTLD [C18]
+//@   pure
+//@   requires tldWF()
+//@   nopanic
+//@   ensures result == (indom(tldMap, lastLabel(lower(domain))) && validAt(tldMap[lastLabel(lower(domain))], when))
+
+//@ func IsInTLDMap [C18]
+//@   pure
+//@   nopanic
+//@   ensures result == indom(tldMap, lower(label))
+
+//@ func CommonNameIsIP [C18]
+//@   pure
+//@   requires cert != nil
+//@   nopanic
+//@   ensures result == (parseIP(cert.Subject.CommonName) != nil)
+
+//@ func DNSNamesExist [C18]
+//@   pure
+//@   requires cert != nil
+//@   nopanic
+//@   ensures result == !(cert.Subject.CommonName == "" && len(cert.DNSNames) == 0)
+
+//@ func IsCACert [C18]
+//@   pure
+//@   requires c != nil
+//@   nopanic
+//@   ensures result == c.IsCA
+//@ func IsSelfSigned [C18]
+//@   pure
+//@   requires c != nil
+//@   nopanic
+//@   ensures result == c.SelfSigned
+//@ func IsSubscriberCert [C18]
+//@   pure
+//@   requires c != nil
+//@   nopanic
+//@   ensures result == (!c.IsCA && !c.SelfSigned)
